@@ -48,7 +48,7 @@ func c05build(c *core.Ctx, r *core.Report) {
 	}
 	n := 0
 	seen := map[string]int{}
-	for _, ii := range core.InlinedInstrs(c, root, 2, func(ins ssa.Instruction) bool {
+	for _, ii := range core.InlinedInstrs(c, root, c.Depth(2), func(ins ssa.Instruction) bool {
 		call, ok := ins.(*ssa.Call)
 		if !ok {
 			return false
